@@ -51,7 +51,7 @@ impl Check for C09 {
         "E0: one real HLCTimestamp clock under an injected wall clock (advance, stall, backwards and forwards jumps) interleaved with send/recv"
     }
     fn rule(&self) -> &'static str {
-        "Cases: 5-120 steps over {set wall clock (small advance / stall / backwards jump up to 3 h / forwards jump up to 3 h), send, recv(remote)} where remote stamps are drawn relative to the wall clock and to the clock itself: behind, equal tick, ahead within drift, at drift +-4 ms, beyond drift, own node id, counters at 0 / mid / 65534 / 65535. Oracle per step as stated in the property. Non-trivial = at least one backwards or forwards jump or stall, one accepted recv and one send. Distinct = hash of the step-kind/outcome sequence."
+        "Cases: 5-120 steps over {set wall clock (small advance / stall / backwards jump up to 3 h / forwards jump up to 3 h), send, recv(remote)} where remote stamps are drawn relative to the wall clock and to the clock itself: behind, equal tick, ahead within drift, at drift +-4 ms, beyond drift, own node id, counters at 0 / mid / 65534 / 65535. Oracle per step as stated in the property; a refused recv must have its cause (same node id, the remote stamp or the clock itself beyond the drift, an exhausted counter) - a remote stamp within the permitted drift has to be accepted. Non-trivial = at least one backwards or forwards jump or stall, one accepted recv and one send. Distinct = hash of the step-kind/outcome sequence."
     }
     fn assumptions(&self) -> Vec<String> {
         vec![
@@ -225,6 +225,21 @@ impl Check for C09 {
                             out.probe(&format!("recv_err_{}", err_name(&e)));
                             if clock.as_u64() != before.as_u64() {
                                 out.violate("C09/failed-recv-changed-clock", format!("step {i}: recv of {msg} failed ({e}) but the clock moved {before} -> {clock}"));
+                            }
+                            // a refusal needs its cause: the same node id, something (the remote stamp or
+                            // the clock itself) beyond the permitted drift ahead of the wall clock, or a
+                            // counter that cannot be incremented
+                            let before_ms = before.datacake_timestamp().as_millis() as u64;
+                            let caused = match &e {
+                                datacake_crdt::TimestampError::DuplicatedNode(_) => *node == sc.node,
+                                datacake_crdt::TimestampError::ClockDrift => before_ms.max(*t) > q(wall.get()) + DRIFT_MS,
+                                datacake_crdt::TimestampError::Overflow => before.counter().max(*c) == u16::MAX,
+                            };
+                            if !caused {
+                                out.violate(
+                                    "C09/remote-stamp-refused-without-cause",
+                                    format!("step {i}: recv of {msg} failed ({e}) with the clock at {before} and the wall clock at {} ms: nothing is beyond the permitted drift, the node ids differ / no counter is exhausted", q(wall.get())),
+                                );
                             }
                         },
                     }
